@@ -38,10 +38,11 @@ inductive TyK
 structure FReq where
   ty   : TyK
   node : NodeK
+  nack : Bool := false      -- the request carries `error_detail` (the receive loop does not read it)
   deriving DecidableEq, Repr
 
 inductive RecvErr
-  | none | missingNode | badNode
+  | none | missingNode | badNode | stream
   deriving DecidableEq, Repr
 
 /-- What the receive loop did: indices of the requests handed on, the error it reported, whether the
@@ -96,33 +97,46 @@ def recvG (guard : Bool) (first : Bool) (i : Nat) : List FReq → RecvRes
 /-- The code in /repo. -/
 def recv (reqs : List FReq) : RecvRes := recvG true true 0 reqs
 
+/-- The script ends with an unexpected transport error instead of a clean EOF (`endErr`): the receive loop reports
+    it - unless it had already refused the stream. -/
+def recvE (endErr : Bool) (reqs : List FReq) : RecvRes :=
+  match recv reqs with
+  | .crash => .crash
+  | .done o => if endErr && o.err = .none then .done { o with err := .stream } else .done o
+
 /-- What `processRequest` / `processDeltaRequest` does with a forwarded request that has an empty
-    nonce and no names, on a server with the production generators and an unauthenticated plaintext
-    client: (responses sent, the type is watched afterwards, an error ends the stream).
+    nonce and no names, on a server with the production generators: (responses sent, the type is watched
+    afterwards, an error ends the stream).  `auth`: the client is authenticated (mTLS identity of the proxy's
+    namespace); otherwise it is a plaintext client.
     * health: handed to the workload-entry health controller, never answered, never watched;
-    * debug: answered by the debug generators without creating a watch - here refused, the client is
-      not authenticated;
+    * debug: answered by the debug generators WITHOUT creating a watch and without recording a nonce (the
+      `DebugType` guards of `Send` / `sendDelta`) when the client is authenticated - refused otherwise;
     * unknown / empty type URL: `ShouldRespond` treats every unknown type as a wildcard type, a watch is
-      created, the default ("api") generator refuses the unauthenticated client;
+      created, the default ("api") generator refuses the client;
     * CDS: answered; EDS without names: an unsubscribe in SotW, an empty (nothing to send) watch in delta. -/
-def procClass (delta : Bool) : TyK → Nat × Bool × Bool
+def procClass (delta auth : Bool) : TyK → Nat × Bool × Bool
   | .health => (0, false, false)
-  | .debug | .debugx => (0, false, true)
+  | .debug | .debugx => if auth then (1, false, false) else (0, false, true)
   | .unknown3 | .unknown | .empty => (0, true, true)
   | .cds => (1, true, false)
   | .eds => (0, delta, false)
 
-/-- In delta a second request for a type that is already watched, with an empty nonce and no
-    subscription change, is a spontaneous request that changes nothing: it is not answered (SotW: an empty
-    nonce is a new subscription and is answered again). -/
-def procStep (delta : Bool) (watched : List TyK) (t : TyK) : Nat × Bool × Bool :=
-  if delta && watched.contains t then (0, true, false) else procClass delta t
+/-- `nack`: the request carries `error_detail`.  A rejection for a type that is watched on the stream is recorded and
+    not answered; for an unwatched type it is the first request (handled like the request without `error_detail`);
+    health and debug requests are handled before the classification and do not read it.
+    In delta a second request for a type that is already watched, with an empty nonce and no subscription change, is
+    a spontaneous request that changes nothing: it is not answered (SotW: an empty nonce is a new subscription and is
+    answered again). -/
+def procStep (delta auth : Bool) (watched : List TyK) (t : TyK) (nack : Bool) : Nat × Bool × Bool :=
+  if (t = .health ∨ t = .debug ∨ t = .debugx) then procClass delta auth t
+  else if watched.contains t && (delta || nack) then (0, true, false)
+  else procClass delta auth t
 
 /-- The forwarded requests handled in order; `watched` = the classes that have a watch so far. -/
-def procSeq (delta : Bool) (watched : List TyK) : List TyK → List (TyK × Nat × Bool × Bool)
+def procSeq (delta auth : Bool) (watched : List TyK) : List (TyK × Bool) → List (TyK × Nat × Bool × Bool)
   | [] => []
-  | t :: ts =>
-    let c := procStep delta watched t
-    (t, c) :: procSeq delta (if c.2.1 then t :: watched else watched) ts
+  | (t, nack) :: ts =>
+    let c := procStep delta auth watched t nack
+    (t, c) :: procSeq delta auth (if c.2.1 then t :: watched else watched) ts
 
 end IstioModel.C04
